@@ -88,8 +88,22 @@ def run(chk):
         kind = rng.choice(KINDS)
         ln = sum(1 for _ in content)
         cases.append((kind, content, gen_ops(rng, ln, kind, rng.randint(2, 8 if not thorough else 14))))
+    # an edit whose OUTCOME the node cannot hold is refused and leaves the data, the length and every later offset as they were -
+    # also an append at the very end, also when the parser itself gives up on the outcome (round-8 seed C16-K kept the refused
+    # text when the check failed with an error instead of `false`)
+    for kind, content, bads in (("comment", "a\U0001d4b3e\u0301", ["-", "--", "x--y", "\u0001", "\ufffe"]), ("cdata", "x\U0001d4b3", ["\u0001", "]]>", "\ufffe", "a]]>b"]),
+                                ("text", "a\u00e9", ["<", "&", "]]>", "\u000b", "a<b"]), ("comment", "a-b", ["-", "b-"]), ("cdata", "a]]", [">", "]>"]),
+                                ("text", "a]]", [">"])):
+        n_ = len(content)
+        for bd in bads:
+            for op in ("app:" + bd, "ins:%d:%s" % (n_, bd), "ins:0:" + bd, "ins:1:" + bd, "rep:%d:0:%s" % (n_, bd), "rep:0:1:" + bd, "set:" + bd,
+                       "rep:%d:M:%s" % (n_ - 1, bd)):
+                cases.append((kind, content, [op, "len", "sub:0:M", "app:k", "sub:%d:2" % (n_ - 1)]))
+    n_exh = len(cases)
     lines = [lib.req("chardata", k, c, *ops) for k, c, ops in cases]
     impl, model = lib.both(lines, resume=True)
+    # (which of its two refusals the library answers with - the check said no, or the parser gave up - is one outcome)
+    impl = [a.replace("err:info-Parse", "err:invalid").replace("err:info-InvalidData", "err:invalid") for a in impl]
     bad = []
     opcount = {}
     for (k, c, ops), a, b in zip(cases, impl, model):
@@ -98,6 +112,22 @@ def run(chk):
             opcount[o.split(":")[0]] = opcount.get(o.split(":")[0], 0) + 1
         if a != b:
             bad.append((k, c, ops, a, b))
+    # the merged view over a run that holds references to declared entities: length and substring count the characters of the
+    # EXPANDED text (round-8 seed C16-L counted every reference as one character)
+    ecases = []
+    for content in ("ab", "a", "\u00e9\U0001d4b3z", "abcd"):
+        hlf = len(content) // 2
+        expanded = content[:hlf] + "xyz" + content[hlf:] + "&"
+        n_ = len(expanded)
+        opsl = [["len"]] + [["sub:%s:%s" % (o, c)] for o in list(range(0, n_ + 2)) + ["M"] for c in (0, 1, 2, n_, "M")]
+        for ops in opsl:
+            ecases.append((content, expanded, ops))
+    ei = lib.run_lines(lib.build_harness(), [lib.req("chardata", "mergedent", c, *ops) for c, _, ops in ecases], timeout=600, per_line_resume=True)
+    em = lib.run_lines(lib.model_driver(), [lib.req("chardata", "merged", x, *ops) for _, x, ops in ecases], timeout=600, per_line_resume=True)
+    for (c, x, ops), a, b in zip(ecases, ei, em):
+        chk.count(["mergedent", c] + ops, nontrivial=True)
+        if a != b:
+            bad.append(("mergedent", c, ops, a, b))
     chk.cov["exhaustive_single_op_cases"] = n_exh
     chk.cov["random_sequences"] = nseq
     chk.cov["ops_distribution"] = opcount
